@@ -37,13 +37,13 @@ open NV.Gen.C12 in
 theorem firstUserSlot_spec : NV.Gen.C12.firstUserSlot = 1 := rfl
 
 open NV.Gen.C12 in
-/-- get_user_data's two-step space rule (space at `text_end`; if short: compaction, space at the pending length; if
-    still short: discard) discards exactly when the pending length alone is short - `text_start` does not matter -
-    and otherwise asks recv() for at least `MAX_TEXT / 16` bytes: a client that never has more unread is read completely -/
-theorem cSpaceRule_discard (start len : Nat) :
-    (cSpaceRule start len).2.1 = roomShort len ∧
-    ((cSpaceRule start len).2.1 = false → recvChunk ≤ (cSpaceRule start len).2.2) ∧
-    ((cSpaceRule start len).2.1 = true → recvChunk ≤ (cSpaceRule start len).2.2) := by
+/-- get_user_data's room rule (space at `text_end`; if short: space at the pending length; if that is short too: hold
+    the read back when a complete command is buffered, else discard) decides by the pending length alone - `text_start`
+    does not matter - and whenever it reads it asks recv() for at least `MAX_TEXT / 16` bytes -/
+theorem cSpaceRule_spec (start len : Nat) (c : Bool) :
+    ((cSpaceRule start len c).2.1 = RoomAct.hold ↔ (roomShort len = true ∧ c = true)) ∧
+    ((cSpaceRule start len c).2.1 = RoomAct.discard ↔ (roomShort len = true ∧ c = false)) ∧
+    ((cSpaceRule start len c).2.1 ≠ RoomAct.hold → recvChunk ≤ (cSpaceRule start len c).2.2) := by
   have hmono : (maxText - (start + len) - 1) / spaceDiv ≤ (maxText - len - 1) / spaceDiv :=
     Nat.div_le_div_right (by omega)
   unfold cSpaceRule roomShort recvChunk
@@ -51,14 +51,17 @@ theorem cSpaceRule_discard (start len : Nat) :
   by_cases h1 : (maxText - (start + len) - 1) / spaceDiv < maxText / compactDiv
   · simp only [h1, if_true]
     by_cases h2 : (maxText - len - 1) / spaceDiv < maxText / compactDiv
-    · simp only [h2, if_true, decide_true]
-      exact ⟨trivial, (fun h => by cases h), fun _ => by decide⟩
-    · simp only [h2, if_false, decide_false]
-      exact ⟨trivial, (fun _ => by omega), fun h => by cases h⟩
+    · cases c with
+      | true => simp [h2]
+      | false =>
+        simp only [h2, decide_true, Bool.and_false, Bool.false_eq_true, if_false, if_true]
+        refine ⟨by simp, by simp, fun _ => by decide⟩
+    · simp only [h2, decide_false, Bool.false_and, Bool.false_eq_true, if_false]
+      refine ⟨by simp, by simp, fun _ => by omega⟩
   · simp only [h1, if_false]
     have h2 : ¬ (maxText - len - 1) / spaceDiv < maxText / compactDiv := by omega
     simp only [h2, decide_false]
-    exact ⟨trivial, (fun _ => by omega), fun h => by cases h⟩
+    refine ⟨by simp, by simp, fun _ => by omega⟩
 
 /-- the table really grows when it is full (otherwise `all_users[i]` would be written outside it) -/
 theorem growBy_pos : 0 < growBy := by decide
